@@ -229,7 +229,21 @@ Section Weather.
     | Some s => (overwrite (Z.to_nat (s_maxd s)) (s_cells s) g, s_maxd s, true)
     end.
 
+  (* ---------------------------------------------------------------- *)
+  (* Optional columns of the per-year layout: VERD (saturation deficit), SUND (sunshine hours) and, since F34,
+     ETNULL (reference evapotranspiration).  replaceMissingValues treats each of them with the very clauses of TMP
+     (SUND has one more: a sentinel that is left over becomes 0).  One column of one year file is modelled by the
+     pass itself, run on a one-year store that carries the column in the average-temperature field. *)
+  Definition lift_col (v : T) : wrec := set_tavg wzero v.
+  Definition col_slot (vals : list T) : slot :=
+    mkslot 0 (map lift_col vals ++ repeat wzero (366 - length vals)) (Z.of_nat (length vals)).
+  Definition opt_year (none : T) (vals : list T) : list T :=
+    map w_tavg (firstn (length vals) (s_cells (slot_at (replace_missing none 1 [col_slot vals]) 0))).
+  Definition sund_year (none : T) (vals : list T) : list T :=
+    map (fun v => if eqb v none then zero else v) (opt_year none vals).
+
 End Weather.
+
 
 Arguments wrec : clear implicits.
 Arguments slot : clear implicits.
